@@ -58,6 +58,15 @@ claim("C19",
       "BitMatrix.Get (C16) guarantees that nothing outside the image is read. Not decided: SampleGridWithTransform's per-cell statement, QuadrilateralToQuadrilateral as a whole, and the 1e-6 floating-point error bound.",
       "float64 treated as real arithmetic (no rounding, no NaN/Inf); float->int conversion is truncation for |x| < 1e9.")
 
-for p in ["C01","C02","C03","C04","C06","C08","C09","C12","C14","C15","C17","C18"]:
+claim("C14",
+      "Geometry of the three renderers, for all requested sizes, symbols and non-negative margins: onedWriter_renderResult returns max(width, n+margin) x max(1,height), with "
+      "multiple = out/(n+margin) >= 1 and leftPadding = (out - n*multiple)/2, and every bar region lies inside the image (the discarded SetRegion error can never occur: asserted at the call); "
+      "QR renderResult returns max(requested, symbol + 2*quiet zone) on each axis, multiple = min over both axes >= 1, paddings as specified, every module block inside the image; "
+      "Data Matrix convertByteMatrixToBitMatrix returns the requested size when the symbol fits in both directions and the bare symbol size otherwise, every block inside the image. "
+      "BitMatrix.SetRegion itself is proved to set exactly the rectangle (C16). "
+      "Not decided yet: the per-pixel statement pixel(x,y) == module((x-pad)/s, (y-pad)/s) for the three renderers (needs the composition of the SetRegion posts through the loops), and the image.Image view.",
+      "products and quotients of symbolic integers are uninterpreted in the function VCs; the needed facts are the separately proved lemmas renderFit/scaleFit/divPos/mulSucc/mulMono.")
+
+for p in ["C01","C02","C03","C04","C06","C08","C09","C12","C15","C17","C18"]:
     na(p, NOTYET)
 na("C11", "The library has no Aztec writer: 'conforming symbol' would have to be a hand-written restatement of ISO/IEC 24778 (a model, not the code), and the image-to-bits path is a float-geometry detector; no contract on one call of the real code expresses the property. The Aztec decoder's totality is covered under C06.")
